@@ -101,3 +101,11 @@ Definition spec_start_span (s : sampler) (explicit : span_ctx) (gen_tid : bytes)
         check (bytes_eqb (st_ts o) (c_ts explicit)) "tracer:parent_based_trace_state_differs_from_parent"
       else []
   end.
+
+(* S1 at the tracer: the root span of a trace (no parent, the trace id comes from the generator) and a later span of the
+   same trace (that id arrives through the parent context) get the same sampled flag from a ratio sampler *)
+Definition spec_participants (s : sampler) (o : started) (root_flags : Z) : list tok :=
+  match s with
+  | SRatio _ => check (st_flags o =? root_flags) "tracer:participants_disagree"
+  | _ => []
+  end.
